@@ -607,7 +607,9 @@ def gen_rt(seed: int, tier: str = "quick") -> Dict[str, Any]:
             continue
         shift = rng.choice([0, 0, 1])
         c = {"src": a, "se": 0, "dst": b, "de": 0, "pairs": [[ua, va]], "shift": shift, "weak": False}
-        if shift and va == "m_in":
+        if use_groups and sims[a]["group"] == sims[b]["group"] == 1 and rng.random() < 0.4:
+            c["weak"] = True        # same-time interaction in real-time mode
+        if (shift or c["weak"]) and va == "m_in":
             c["init"] = {ua: f"init{len(conns)}"}
         conns.append(c)
     until = rng.choice([2, 3, 4, 5, 6])
